@@ -44,6 +44,12 @@ def worker_main(args):
 def replay_main(args):
     chk = load_check(args.prop)
     rec = json.load(open(args.replay))
+    hs = rec.get("hashseed")
+    if hs is not None and os.environ.get("PYTHONHASHSEED") != str(hs) and not os.environ.get("VPMON_REEXEC"):
+        # reproduce under the hash seed of the shard that found it
+        env = dict(os.environ, PYTHONHASHSEED=str(hs), VPMON_REEXEC="1")
+        return subprocess.call([sys.executable, "-m", "vpmon.cli", args.prop, "--replay", args.replay],
+                               env=env, cwd=HERE)
     ctx = core.Ctx(args.prop, rec.get("tier", "quick"), rec.get("seed", 0))
     ctx.known = {}  # a replay shows the raw outcome
     if not hasattr(chk, "replay"):
@@ -92,8 +98,13 @@ def parent_main(args):
     hard = budget * 2 + 120
     tmp = tempfile.mkdtemp(prefix="vpmon_")
     procs = []
-    env = dict(os.environ)
     for i in range(nshards):
+        env = dict(os.environ)
+        # every shard runs under its own (reproducible) hash seed, so behaviour that depends
+        # on set / dict iteration order of the code under test is part of what is explored;
+        # shard 0 keeps the launcher's seed
+        if i:
+            env["PYTHONHASHSEED"] = str((args.seed * 131 + i) % 4294967295)
         out = os.path.join(tmp, "shard%d.json" % i)
         cmd = [sys.executable, "-m", "vpmon.cli", args.prop, "--worker", "--tier", tier,
                "--seed", str(args.seed), "--shard", str(i), "--nshards", str(nshards),
